@@ -1,4 +1,4 @@
-"""C02 -- parsing is lossless: BOUNDED stand-in only (nothing is counted as proved).
+"""C02 -- parsing is lossless: the root_parse kernel is proved (c02_root.py); MatchResult.apply is a BOUNDED stand-in.
 MatchResult.apply is recursion over a self-nested record with dict-of-list triggers and class instantiation: outside the
 subset pyvc executes (no recursive datatypes).  The executable contracts of DESIGN.md A.3 (`wf`, `leaves`) are checked on every
 `apply` call of real parses, exhaustively on small synthetic matches, and for append / wrap; see c02_bounded.py."""
@@ -9,11 +9,13 @@ MUTANTS = list(MUTANTS) + list(_root.MUTANTS)
 TRUSTED = list(TRUSTED) + list(_root.TRUSTED)
 
 PROP = "C02"
-LEVEL = "exploration"
+LEVEL = "other"
 RULE = ("every MatchResult.apply call during real parses of dialect fixtures (each also with a stray token), all well-formed "
         "synthetic matches over 4 tokens per family, exhaustive small append/wrap cases; non-trivial = at least one child match "
         "or insert")
-EXPLANATION = "bounded executable contracts; see module docstring"
+EXPLANATION = ("kernel proved by pyvc: BaseFileSegment.root_parse (two region contracts, contracts/c02_root.py) places every lexed token in the "
+               "tree exactly once, assuming MatchResult.apply spans its matched slice; that assumption and append/wrap are bounded "
+               "executable contracts on real parses (contracts/c02_bounded.py). Counts: coverage.obligations / discharged.")
 
 
 def _self_check(tier, seed):
